@@ -145,6 +145,18 @@ CHECKS = {
         "assumptions": COMMON_ASSUME,
         "design_ref": "DESIGN.md §5 C13",
     },
+    "C14": {
+        "level": "fault_enumeration", "shards": 6, "deadline_quick": 110, "deadline_thorough": 1800,
+        "engine": "E-WORLD as crash-point enumeration",
+        "technique": "exhaustive cancellation-point enumeration over the implementation: BFS by replay builds every order of concurrent API calls and gate events up to the depth bound and cancels the constructor context at every quiescent point of every order",
+        "rule": "cases = (router x discovery on/off) x (every history up to the depth bound over ~24 API calls each issued from its own goroutine, remote message into a gated validator, blocked write, late stream) x cancellation at every quiescent point; "
+                "non-trivial = distinct canonical observation log (which calls were parked at the cancellation point)",
+        "level_text": "at every quiescent point of every explored order the context is cancelled, the host's streams are closed and virtual time advances 75 s; every call in flight must return (own-context calls once that context is cancelled), "
+                      "every API call issued 40 more times must return, and the goroutine dump of the synctest bubble must contain no goroutine created by the library",
+        "level_note": "cancellation between two instructions of one event-loop handler is not a separate point (handlers run to completion on the loop); the discovery backend is a stub",
+        "assumptions": COMMON_ASSUME,
+        "design_ref": "DESIGN.md §5 C14",
+    },
     "C15": {
         "level": "model_checking", "variants": ["main", "sched"], "shards": 15, "deadline_quick": 90, "deadline_thorough": 900,
         "engine": "E-SEQ + E-SCHED",
